@@ -28,7 +28,8 @@ N = {"quick": 2000, "thorough": 200000}
 WORKERS = {"quick": 4, "thorough": 16}
 TIMEOUT = {"quick": 300, "thorough": 3000}
 CASE_TIMEOUT = 60.0
-TOL_V = 1e-12        # value, relative to the running round-off scale S >= |value|
+TOL_V = 1e-11        # value, relative to the running round-off scale S >= |value|
+#                      (observed floor 2.3e-15 over 2e5 cases; Jacobian floor 4e-14)
 TOL_J = 1e-10        # Jacobian rows, relative to the row maximum of the absolute Jacobian
 TOL_FD = 1e-5        # finite-difference cross-check of the reference
 KINK_MIN = 1e-2      # required distance from kinks
@@ -82,7 +83,7 @@ ASSUMPTIONS = [
 ]
 LEVEL_TEXT = ("Every node of randomly composed AdArray expressions (all overloads, sparse "
               "products, slicing, the whole function library) agrees with an independent "
-              "dual-number interpreter to 1e-12 (values) / 1e-10 (Jacobian rows) at random "
+              "dual-number interpreter to 1e-11 (values) / 1e-10 (Jacobian rows) at random "
               "points inside the smooth domain; the interpreter itself is cross-checked by "
               "finite differences. Exploration, not proof.")
 TECHNIQUE = "reference-model monitor (dense dual numbers + finite-difference cross-check)"
@@ -535,6 +536,6 @@ def check(case, mon):
     mon.measure("jacobian_residual", _fin(worst_j))
     # which operations sit highest above the round-off floor (1 % of the tolerance)
     if worst_v > 0.01 * TOL_V:
-        mon.count("value_residual_above_1e-14:" + worst_v_lab)
+        mon.count(f"value_residual_above_{0.01 * TOL_V:g}:" + worst_v_lab)
     if worst_j > 0.01 * TOL_J:
-        mon.count("jacobian_residual_above_1e-12:" + worst_j_lab)
+        mon.count(f"jacobian_residual_above_{0.01 * TOL_J:g}:" + worst_j_lab)
